@@ -36,6 +36,8 @@ impl Tier {
 /// One failing case, reduced to a class key computed from the *shape* of the case.
 #[derive(Clone, Debug)]
 pub struct Fail {
+    /// (stage index, case index) of the failing case, when the check recorded it
+    pub loc: Option<(usize, u64)>,
     pub key: String,
     /// replayable description of the case (stage + case text)
     pub case: String,
@@ -53,6 +55,9 @@ pub struct WorkerOut {
     pub counters: BTreeMap<String, u64>,
     /// distinct outcome classes seen (vacuity guard)
     pub outcomes: BTreeSet<String>,
+    /// stage / case index being processed (copied into failures for replay)
+    pub stage: Option<usize>,
+    pub idx: Option<u64>,
 }
 
 impl WorkerOut {
@@ -62,6 +67,7 @@ impl WorkerOut {
         let e = self.fails.entry(key.clone()).or_insert_with(|| {
             (
                 Fail {
+                    loc: None,
                     key: key.clone(),
                     case: case.clone(),
                     detail: String::new(),
@@ -72,6 +78,10 @@ impl WorkerOut {
         e.1 += 1;
         if e.1 == 1 || (case.len(), &case) < (e.0.case.len(), &e.0.case) {
             e.0 = Fail {
+                loc: match (self.stage, self.idx) {
+                    (Some(s), Some(i)) => Some((s, i)),
+                    _ => None,
+                },
                 key,
                 case,
                 detail: detail.into(),
@@ -111,7 +121,7 @@ impl WorkerOut {
         json!({
             "evals": self.evals,
             "nontrivial": self.nontrivial.iter().map(|h| format!("{:x}", h)).collect::<Vec<_>>(),
-            "fails": self.fails.iter().map(|(k,(f,n))| json!({"key":k,"case":f.case,"detail":f.detail,"n":n})).collect::<Vec<_>>(),
+            "fails": self.fails.iter().map(|(k,(f,n))| json!({"key":k,"case":f.case,"detail":f.detail,"n":n,"stage":f.loc.map(|l| l.0),"idx":f.loc.map(|l| l.1)})).collect::<Vec<_>>(),
             "samples": self.samples,
             "counters": self.counters,
             "outcomes": self.outcomes,
@@ -129,6 +139,10 @@ impl WorkerOut {
                 key.clone(),
                 (
                     Fail {
+                        loc: match (f.get("stage").and_then(|x| x.as_u64()), f.get("idx").and_then(|x| x.as_u64())) {
+                            (Some(s), Some(i)) => Some((s as usize, i)),
+                            _ => None,
+                        },
                         key,
                         case: f.get("case")?.as_str()?.to_string(),
                         detail: f.get("detail")?.as_str()?.to_string(),
@@ -348,6 +362,8 @@ pub fn orchestrate(p: &dyn Prop, tier: Tier, plan: &Plan, jobs: usize) -> CheckR
                                         let key = p.crash_key(tier, si, a, how);
                                         let case = format!("{}|{}", st.name, p.case_text(tier, si, a));
                                         r.0.evals += 1;
+                                        r.0.stage = Some(si);
+                                        r.0.idx = Some(a);
                                         r.0.fail(key, case, format!("worker process {}: {}", how, detail));
                                     }
                                 }
@@ -482,7 +498,7 @@ pub fn finish(
                 id,
                 hash64(&format!("{}|{}", key, f.case))
             );
-            let body = json!({"property": id, "key": key, "case": f.case, "detail": f.detail, "cases_with_this_key": n, "tier": tier.name()});
+            let body = json!({"property": id, "key": key, "case": f.case, "detail": f.detail, "cases_with_this_key": n, "tier": tier.name(), "stage": f.loc.map(|l| l.0), "idx": f.loc.map(|l| l.1)});
             let _ = std::fs::write(&fname, serde_json::to_string_pretty(&body).unwrap());
             println!("VIOLATION property={} replay={}", id, fname);
             println!("  key={} cases={} case={}", key, n, f.case.replace('\n', "\\n"));
